@@ -281,6 +281,8 @@ def run_binary_on_cases(binary, cases, tag, workdir, per_shard_timeout=400, nsha
     os.makedirs(workdir, exist_ok=True)
     results = {}
     problems = []
+    # the limit was calibrated with 16 shards running side by side; with fewer cores the shards are longer
+    per_shard_timeout = per_shard_timeout * max(1, 16 // max(1, NPROC))
     queue = [(sh, False) for sh in shard(cases, nshards or NPROC)]   # (cases, is_single_retry)
     rnd = 0
     while queue and rnd < 12:
